@@ -56,7 +56,9 @@ pub enum N {
         /// reaped, the status is the command's; 2 the substitution's shell
         /// leaves an asynchronous grandchild behind that still holds the pipe,
         /// `v=$(body; { nap 3; echo late; } &)`: the text ends when the
-        /// grandchild is done
+        /// grandchild is done; 3 the output is larger than a pipe holds,
+        /// `v=$(body; gen 1500 K 400 6 0)`: the shell has to read while the
+        /// child is still writing
         #[serde(default)]
         form: u8,
     },
@@ -249,7 +251,7 @@ impl Gen<'_> {
                     let body = self.block(depth + 1, 3, false);
                     self.outer_jobs = saved;
                     self.next_var += 1;
-                    let form = *self.rng.pick(&[0u8, 0, 0, 1, 2]);
+                    let form = *self.rng.pick(&[0u8, 0, 0, 1, 2, 3]);
                     out.push(N::Cs {
                         var: self.next_var,
                         body,
@@ -551,6 +553,12 @@ fn render(n: &N, out: &mut String, _sep: &str) {
                 inline(body)
             ));
         }
+        N::Cs { var, body, form: 3 } => {
+            out.push_str(&format!(
+                "v{var}=$( {}gen 1500 {var} 400 6 0 ); s=$?; echo \"v{var}=[$v{var}]\"; rc $s",
+                inline(body)
+            ));
+        }
         N::Cs { var, body, .. } => {
             out.push_str(&format!(
                 "v{var}=$( {}); s=$?; echo \"v{var}=[$v{var}]\"; rc $s",
@@ -745,6 +753,10 @@ fn eval(n: &N, cx: &mut Ctx) {
                 c.status = 0;
             }
             if *form == 1 {
+                c.status = 0;
+            }
+            if *form == 3 {
+                c.out.push(String::from_utf8_lossy(&crate::probes::stream_bytes(*var as u64, 1500, 6)).into_owned());
                 c.status = 0;
             }
             let mut text = c.out.join("\n");
